@@ -544,6 +544,10 @@ func hasLispDefinition(fi *slip.FuncInfo) (ok bool) {
 			ok = false
 		}
 	}()
+	if fi.Doc == nil {
+		// An entry made for a call to a function that is not defined (yet).
+		return false
+	}
 	switch fi.Kind {
 	case slip.FlosSymbol:
 		return true
